@@ -10,10 +10,10 @@ SPEC = dict(
     lean_targets=["SwayVerif.Props.C08"], audit="SwayVerif/Audit/C08.lean",
     theorems=["liveness_is_solution", "liveness_total", "liveness_sound", "interference_complete", "coalesce_keeps_interference",
               "coalesce_rename_no_clobber", "assign_proper", "assign_total_or_error", "spill_offsets_disjoint",
-              "C08_no_clobber", "C08_no_clobber_pipeline", "validAlloc_sound", "C08_simulation",
+              "C08_no_clobber", "C08_no_clobber_pipeline", "validAlloc_sound", "validRound_sound", "C08_simulation",
               "C08_checked_simulation"],
     steps=[dict(bin="sv_c08", area="c08", n_quick=300, n_thorough=3000, corpus="corpus/c08.txt",
-                dist_keys=("size", "pressure", "src", "rounds", "valid", "slots", "res", "vm", "exact", "succ", "stages"),
+                dist_keys=("size", "pressure", "src", "rounds", "valid", "e2e", "ren", "co", "slots", "res", "vm", "exact", "succ", "stages"),
                 nontrivial=_nontrivial, timeout=2400)],
     rule="op lists = corpus + every function of real compilations harvested through SWAY_VERIF_DUMP (a generated library "
          "of functions keeping 44..68 values live across a loop, compiled in release mode and RUN on the VM; e2e test "
